@@ -215,6 +215,30 @@ def run(tier):
         cases.append({"id": cid, "step": "bilateral_symmetry", "a": a, "b": b})
         meta[cid] = {"method": "bilateral", "sigma_space": sg, "window_width": width, "rows": rows, "cols": cols, "probe_pairs": [[list(p), list(q)] for p, q in pairs]}
         chk.count(("bilsym", sg))
+    # ---- bilateral: the spatial kernel is the Gaussian of the configured sigma_space, whatever filter ran before in the process -----
+    try:
+        vs, sig = [], []
+        for sg in (2.0, 2.2, 1.0, 1.2, 2.2, 2.0):          # pairs of sigmas that give the SAME window width (7, 7, 4, 4)
+            rows = cols = 13
+            r0 = c0 = 6
+
+            def probe(dc):
+                d = np.zeros((rows, cols), dtype=np.float32)
+                d[r0, c0 + dc] = 1.0
+                ds = build.make_disp(d, vm=np.zeros((rows, cols), dtype=int))
+                pfilter.AbstractFilter(cfg={"filter_method": "bilateral", "sigma_space": float(sg), "sigma_color": 1000.0}, image_shape=(rows, cols),
+                                       step=1).filter_disparity(ds)
+                return float(ds["disparity_map"].data[r0, c0])
+            r1, r2 = probe(-1), probe(-2)
+            v = (np.log(r1 / r2) * 2.0 * sg * sg / 3.0) if (r1 > 0 and r2 > 0) else -1.0
+            vs.append(int(round(1e6 * v)) if abs(v) < 1000 else 1000000009)
+            sig.append(int(round(1000 * sg)))
+        cases.append({"id": "law", "step": "bilateral_law", "v": vs, "sigma1000": sig})
+        meta["law"] = {"method": "bilateral", "rows": 13, "cols": 13, "sigmas": sig}
+        chk.count(("billaw",))
+    except Exception as exc:  # pylint: disable=broad-except
+        chk.violation("total", dict(method="bilateral", exception=type(exc).__name__, smaller_than_filter=False), {"exception": repr(exc)[:300]},
+                      f"bilateral raised on a 13x13 probe map: {exc!r}")
     # ---- a fully invalid, grid-aligned 100x100 block followed by valid blocks (block bookkeeping) ----------------------------------
     for (rows, cols, fsz) in ([(106, 160, 3)] if tier == "quick" else [(106, 160, 3), (108, 230, 5), (210, 106, 3), (150, 250, 3)]):
         try:
